@@ -90,6 +90,7 @@ def make_case(family, i, rng, tier):
             # how the server lets go after the handshake: FIN, or a reset
             # (shutdown() on the client's socket then fails with ENOTCONN)
             'end': rng.choice(['eof', 'eof', 'rst']),
+            'compress': rng.random() < 0.25,
             'send_everywhere': rng.random() < 0.6,
             'eof_after': rng.random() < 0.7}
     enc = ST.encode_items(pre)
@@ -210,7 +211,14 @@ def build(case):
     if case.get('send_everywhere'):
         for n in ALL_EVENTS:
             app.append({'when': {'name': n}, 'do': list(SENDS)})
-    sc = ST.stream_scenario(case, enc, tail, app=app,
+    extra, ws = (), None
+    if case.get('compress'):
+        # permessage-deflate offered and accepted (the frames of this
+        # exchange are sent uncompressed, which stays legal)
+        extra = [b'Sec-WebSocket-Extensions: permessage-deflate']
+        ws = {'compress': True}
+    sc = ST.stream_scenario(case, enc, tail, app=app, extra_headers=extra,
+                            ws=ws,
                             connect={'ping_rate': 0, 'poll': 5,
                                      'close_timeout': case.get(
                                          'close_timeout', 30)})
